@@ -373,6 +373,11 @@ def run_check(pid, tier, seed, prop, gen_needed, tie, search=None, trusted=(), a
     # a failure marked level='model' says that the implementation and the MODEL disagree (an executable definition replayed on a
     # recorded run, an invariant of the model read off the real structure): that is a broken correspondence, not by itself a
     # violation of the property - the search then looks for a property-level failing input
+    for f in t.get('failures', []):
+        # a harness that no longer compiles against the current headers (it reads private members, calls internal functions) says
+        # that the code moved away from what the correspondence observes, not that the property fails on some input
+        if isinstance(f, dict) and 'does not compile against the current headers' in str(f.get('what', '')):
+            f['level'] = 'model'
     model_fails = [f for f in t.get('failures', []) if isinstance(f, dict) and f.get('level') == 'model']
     failures = [f for f in t.get('failures', []) if not (isinstance(f, dict) and f.get('level') == 'model')]
     if model_fails and not failures:
@@ -395,7 +400,7 @@ def run_check(pid, tier, seed, prop, gen_needed, tie, search=None, trusted=(), a
             broken.append({'proof_check': stats.get('log_tail', '') or 'Print Assumptions did not report a closed proof for every theorem'})
         found = [f for f in (search() if search else []) if not (isinstance(f, dict) and f.get('level') == 'model')]
         what = {'property': pid, 'kind': 'proof-obligation', 'broken': broken}
-        name = fails[0][2] if fails else (t.get('msg') or str(broken[0]))[:160]
+        name = (fails[0][2] if fails[0][2] != '?' else '%s (%s)' % (fails[0][0], str(fails[0][3])[:120])) if fails else (t.get('msg') or str(broken[0]))[:160]
         if found:
             what['failures'] = found[:20]
             res.violation('input', what, '%s: %s no longer checks; failing input: %s' % (pid, name, found[0].get('what', found[0])))
